@@ -6,6 +6,22 @@ use typify_impl::{TypeDetails, TypeSpace};
 fn int_schema_text(s: &Value) -> String {
     let empty = serde_json::Map::new();
     let o = s.as_object().unwrap_or(&empty);
+    // "split": allOf[{type, format}, {type, bounds}]
+    if o.contains_key("split") {
+        let mut a = String::from("{\"type\":\"integer\"");
+        if let Some(f) = o.get("fmt") {
+            a.push_str(&format!(",\"format\":{}", f));
+        }
+        a.push('}');
+        let mut b = String::from("{\"type\":\"integer\"");
+        for (k, jk) in [("min", "minimum"), ("max", "maximum"), ("emin", "exclusiveMinimum"), ("emax", "exclusiveMaximum")] {
+            if let Some(p) = o.get(k) {
+                b.push_str(&format!(",\"{}\":{}", jk, abs::point_value(p)));
+            }
+        }
+        b.push('}');
+        return format!("{{\"allOf\":[{},{}]}}", a, b);
+    }
     // "nul": the nullable spelling {"type": ["integer", "null"]}
     let mut t = if o.contains_key("nul") {
         String::from("{\"type\":[\"integer\",\"null\"]")
